@@ -158,6 +158,9 @@ func (c *ClusterNode) sendShardFile(destination string, path string) error {
 			ChunkData:    buf[:n],
 		}
 		rpcResp := RPCSendShardResponse{}
+		if err := verifPoint("send-chunk", i); err != nil {
+			return err
+		}
 		if err := c.RPCSendShard(&req, &rpcResp); err != nil {
 			return fmt.Errorf("failed to send shard file chunk: %w", err)
 		}
@@ -275,6 +278,9 @@ func (c *ClusterNode) Sync() error {
 	c.logger.Info().Strs("servers", c.Servers).Str("myhostname", c.MyHostname).Msg("syncing cluster node state")
 	if err := c.syncUserCollections(); err != nil {
 		return fmt.Errorf("failed to sync user collections: %w", err)
+	}
+	if err := verifPoint("between-phases", 0); err != nil {
+		return err
 	}
 	if err := c.syncShards(); err != nil {
 		return fmt.Errorf("failed to sync shards: %w", err)
